@@ -86,10 +86,15 @@ def history(draw, min_msgs=4, max_msgs=14, sources=(1, 2, 3, 9), claims=True, si
             msgs.append([{"kind": "fastframe", "pgn": d.pgn, "src": src, "dest": dest, "data": fr, "msg": mi, "def": d.key, "frame": i}
                          for i, fr in enumerate(wire.segment(payload, seq))])
         else:
-            jk = draw(st.sampled_from(["unknown_pgn", "truncated", "out_of_range"]))
+            jk = draw(st.sampled_from(["unknown_pgn", "truncated", "out_of_range", "no_definition"]))
             if jk == "unknown_pgn":
                 msgs.append([{"kind": "raw", "pgn": draw(st.sampled_from([65000, 131000, 100000])), "src": src, "dest": 255,
                               "data": draw(st.binary(min_size=8, max_size=8)), "msg": mi, "junk": jk}])
+            elif jk == "no_definition":
+                # a proprietary PGN without fallback definition, from a manufacturer none of its definitions names: ignored input
+                pgn = draw(st.sampled_from([65285, 65286, 65287, 65293, 130817, 130821]))
+                hdr = (229 | 3 << 11 | 4 << 13).to_bytes(2, "little")          # Garmin, marine industry
+                msgs.append([{"kind": "raw", "pgn": pgn, "src": src, "dest": 255, "data": hdr + draw(st.binary(min_size=6, max_size=6)), "msg": mi, "junk": jk}])
             elif jk == "truncated":
                 d = database.by_key[draw(st.sampled_from(single_keys + fast_keys))]
                 msgs.append([{"kind": "raw", "pgn": d.pgn, "src": src, "dest": 255, "data": draw(st.binary(min_size=0, max_size=2)), "msg": mi, "junk": jk}])
